@@ -241,6 +241,11 @@ func run(c *ev.Ctx) {
 	gen.EnumDocs(maxD-1, scalars, []string{"a", "b", "c"}, func(d *gen.JV) { docsSmall = append(docsSmall, d) })
 	c.Bound("documents_for_schemas_up_to_2_nodes", len(docs))
 	c.Bound("documents_for_larger_schemas", len(docsSmall))
+	// the directed families first: they are cheap, and a deadline (thorough tier) must cut the tail of
+	// the big enumeration, not them
+	spines(c)
+	anyFamily(c)
+	repFamily(c)
 	for n := 1; n <= maxS; n++ {
 		shapes(n, func(shape *gen.Node) {
 			withFlags(shape, nullableVals, func(root *gen.Node) {
@@ -259,9 +264,6 @@ func run(c *ev.Ctx) {
 			})
 		})
 	}
-	spines(c)
-	anyFamily(c)
-	repFamily(c)
 }
 
 func replay(raw stdjson.RawMessage) (bool, string) {
